@@ -43,6 +43,7 @@ func code(e *peg.Expr, c *hook.Node) {
 	if c == nil {
 		return
 	}
+	e.Code = string(c.V)
 	m := bodyRe.FindStringSubmatch(strings.TrimSpace(string(c.V)))
 	if m == nil {
 		return
